@@ -30,36 +30,33 @@ def run(ck, an, tier):
     d = fa.f.param_default(accrue_p)
     ck.check(isinstance(d, ast.Constant) and d.value is False, "GUARD", "S5.query-is-default", subj, fa.f.loc, "accrue defaults to False (a plain call is a query)",
              f"accrue default is {ast.unparse(d) if d is not None else 'missing'}", construct="accrue default")
-    floor_ifs, init_ifs = [], []
-
-    def is_floor(s, fw):
-        body_ok = len(s.body) == 1 and isinstance(s.body[0], ast.Assign) and const_value(s.body[0].value) in (0, 0.0) and not s.orelse
-        if body_ok and not isinstance(const_value(s.body[0].value), bool):
-            c = fw.cmp(s.test)
-            if c[0] in ("and", "rel"):
-                floor_ifs.append((s, c, fw.st.copy()))
-                return True
-        return False
-
-    def assume_accrue(s, fw):
-        c = fw.cmp(s.test)
-        if c[0] == "truthy" and c[1] == accrue_p:
-            return c[2]
-        if c[0] == "is" and "None" in (c[1], c[2]) and "_last_accrual" in c[1] + c[2]:
-            init_ifs.append(s)
-            return not c[3]        # assume the clock is already initialised
-        return None
-
-    def assume_query(s, fw):
-        c = fw.cmp(s.test)
-        if c[0] == "truthy" and c[1] == accrue_p:
-            return not c[2]
-        if c[0] == "is" and "None" in (c[1], c[2]) and "_last_accrual" in c[1] + c[2]:
-            return not c[3]
-        return None
-    fw = Forward(an, fa, assume=assume_accrue, skip_if=is_floor).run()
-    fq = Forward(an, fa, assume=assume_query, skip_if=lambda s, f: is_floor(s, f)).run()
+    init_ifs = []
     cash_key = "self._holdings_quantity[self.base_currency]"
+    C0_ = Poly.atom(cash_key)
+    POS = ("rel", "<", (-C0_).key(), False, -C0_)                      # cash > 0
+    NOT_POS = ("rel", "<=", C0_.key(), False, C0_)                     # not (cash > 0)
+
+    def regime(accrue: bool, extra_facts):
+        """the function evaluated under: accrue truthy / falsy, the accrual clock already initialised, and the given sign facts
+        (conditions - and conditional values - they decide collapse, whatever statement form the code gives them)"""
+        def dec(c):
+            if c[0] == "truthy" and c[1] == accrue_p:
+                return c[2] if accrue else not c[2]
+            if c[0] == "is" and "None" in (c[1], c[2]) and "_last_accrual" in c[1] + c[2]:
+                return not c[3]        # the clock is already initialised
+            return decide_by_facts(c, extra_facts)
+
+        def assume(s_, fw_):
+            c = fw_.cmp(s_.test)
+            if c[0] == "is" and "None" in (c[1], c[2]) and "_last_accrual" in c[1] + c[2] and s_ not in init_ifs:
+                init_ifs.append(s_)
+            return dec(c)
+        fw_ = Forward(an, fa, assume=assume)
+        fw_.sym.decide = dec
+        fw_.run()
+        return fw_
+    fw = regime(True, [NOT_POS])        # no floor in this regime: the raw accrued amount
+    fq = regime(False, [NOT_POS])
     last_key = "self._last_accrual"
     # ---------------- S5 query changes nothing
     changed = {k: v.key() for k, v in fq.st.slots.items() if not k.startswith("<") and v.key() != k}
@@ -77,7 +74,7 @@ def run(ck, an, tier):
             continue
         if any(any(e.node is x for x in ast.walk(s)) for s in init_ifs):
             continue
-        sg = fa.syntactic_guards(e.node)
+        sg = fa.guard_predicates(e.node)      # every path to the write (nested under `if accrue:` or after `if not accrue: return`)
         ck.check(any(p[0] == "truthy" and p[1] == accrue_p and p[2] for p in sg), "GUARD", "S5.writes-under-accrue", subj, e.loc, f"write of {e.attr} happens only under `accrue`",
                  f"{e.attr} is written outside `if accrue` (a query would change the account)", construct=stmt_text(e.node))
     # ---------------- equations on the accrue path
@@ -129,21 +126,20 @@ def run(ck, an, tier):
     val = fa.sym._global("SECONDS_IN_YEAR", 0).const_value() if siy is not None else None
     ck.check(val == 31536000, "CONST", "S3.seconds-in-year", "broker.SECONDS_IN_YEAR", f"{m.relpath}:{siy.lineno if siy is not None else 0}", "SECONDS_IN_YEAR = 365*24*60*60",
              f"SECONDS_IN_YEAR folds to {val}", construct="SECONDS_IN_YEAR")
-    # ---------------- S2 floor
-    if not floor_ifs:
-        ck.fail("GUARD", "S2.floor-present", subj, fa.f.loc, "no floor: positive balances can be charged when rate - markup < 0", construct="missing:if amount > 0 and accrued_interest < 0: accrued_interest = 0")
-    for s, c, st in floor_ifs[:1]:
-        atoms = cmp_atoms(c)
-        tgt = s.body[0].targets[0].id if isinstance(s.body[0].targets[0], ast.Name) else "?"
-        val_before = st.locals.get(tgt)
-        has_pos = any(a[0] == "rel" and a[1] == "<" and a[4] == -C0 for a in atoms)
-        has_neg = any(a[0] == "rel" and a[1] == "<" and val_before is not None and a[4] == val_before for a in atoms)
-        ck.check(c[0] == "and" and len(atoms) == 2 and has_pos and has_neg, "CMP", "S2.floor-condition", subj, fa.loc(s),
-                 "the floor applies exactly when cash > 0 and the accrued amount < 0", f"floor condition is {cmp_key(c)}", construct=stmt_text(s))
-        ck.check(val_before is not None and val_before == ret, "ARGFLOW", "S2.floor-on-accrued", subj, fa.loc(s), "the floored variable is the accrued amount that is credited and returned",
-                 "the floor is applied to a different variable than the one credited", construct=stmt_text(s))
-        writes = [e.node for e in fa.effects() if e.kind == "W" and e.attr == "_holdings_quantity"]
-        ord_before(ck, fa, "S2.floor-before-accrual", [s.test], writes, "the floor", "the cash write")
+    # ---------------- S2 floor: the amount returned / credited in each sign regime of (cash, raw accrued amount)
+    NEG = ("rel", "<", ret.key(), False, ret)                          # raw accrued amount < 0
+    NOT_NEG = ("rel", "<=", (-ret).key(), False, -ret)
+    for name, facts, want, what in (("S2.floor-condition", [POS, NEG], Poly.const(0), "idle cash (cash > 0) whose raw accrual is negative earns exactly 0: positive balances are never charged"),
+                                    ("S2.floor-only-when-negative", [POS, NOT_NEG], ret, "a positive balance with a non-negative accrual receives it unchanged"),
+                                    ("S2.floor-only-for-idle-cash", [NOT_POS, NEG], ret, "borrowed cash (cash <= 0) is charged the raw amount (no floor)")):
+        fr_ = regime(True, facts)
+        rv_ = [v for r_, v, st_ in fr_.returns if v is not None]
+        Cr_ = fr_.st.slots.get(cash_key)
+        got_ = rv_[-1] if rv_ else None
+        ck.check(got_ is not None and got_ == want, "CMP", name, subj, fa.f.loc, what, f"in that regime the amount returned is {got_.key()[:200] if got_ is not None else 'nothing'}; expected {want.key()[:200]}",
+                 construct="if amount > 0 and accrued_interest < 0: accrued_interest = 0")
+        ck.check(Cr_ is not None and got_ is not None and Cr_ - C0_ == got_, "ORD", "S2.floor-before-accrual", subj, fa.f.loc, "the amount credited to cash is the floored amount that is returned",
+                 f"cash changes by {(Cr_ - C0_).key()[:160] if Cr_ is not None else 'nothing'} but {got_.key()[:160] if got_ is not None else '?'} is returned", construct="cash += accrued_interest")
     # ---------------- S6 comparator
     ok6 = False
     for r in raises_in(fa):
@@ -179,7 +175,10 @@ def s7(ck, an):
         ck.check(a0 == f"{reb}.time", "ARGFLOW", "S7.accrues-at-request-time", subj, fa.loc(c), "interest is accrued up to the request's time", f"accrued_interest(now={a0})", construct=stmt_text(c))
         ck.check(isinstance(a1, ast.Constant) and a1.value is True, "ARGFLOW", "S7.accrue-true", subj, fa.loc(c), "rebalance accrues (accrue=True)", "rebalance only queries the interest", construct=stmt_text(c))
         st = enclosing_stmt(c)
-        ck.check(isinstance(st, ast.Assign) and ast.unparse(st.targets[0]) == f"{reb}.profit_on_idle_cash" and st.value is c, "ARGFLOW", "S7.profit-recorded", subj, fa.loc(c),
+        # some store to <request>.profit_on_idle_cash carries the value id of this very call (directly or through a temporary)
+        rec = [x for x in all_stmts(fa) if isinstance(x, ast.Assign) and len(x.targets) == 1 and isinstance(x.targets[0], ast.Attribute) and x.targets[0].attr == "profit_on_idle_cash"
+               and fa.sym.canon(x.targets[0].value) == reb and fa.sym.canon(x.value) == fa.sym.canon(c)]
+        ck.check(len(rec) == 1, "ARGFLOW", "S7.profit-recorded", subj, fa.loc(c),
                  "the accrued amount is recorded as profit_on_idle_cash", f"accrual result goes to `{ast.unparse(st)[:60]}`", construct=stmt_text(c))
     ck.check(len(ac) == 1, "PATHCOUNT", "S7.accrues-once", subj, fa.f.loc, "rebalance accrues exactly once", f"rebalance calls accrued_interest {len(ac)} times", construct="accrued_interest call")
     # reset seeds the rate (and cash) quote before any transmitter event is processed
